@@ -591,13 +591,12 @@ class CallMixin:
     def call_method_rule(self, bb, args, kwargs, st, sink, n):
         recv, name = bb.recv, bb.name
         t = recv.ty
-        key = None
-        for cls in type(t).__mro__:
-            if (cls, name) in self.method_rules:
-                key = (cls, name)
-                break
-        if key is None and (t.name, name) in self.method_rules:
-            key = (t.name, name)
+        key = (t.name, name) if (t.name, name) in self.method_rules else None
+        if key is None:
+            for cls in type(t).__mro__:
+                if (cls, name) in self.method_rules:
+                    key = (cls, name)
+                    break
         if key is None:
             raise Unsupported(f"method {name} on {t}", n)
         yield from self.method_rules[key](self, bb, args, kwargs, st, sink, n)
